@@ -95,7 +95,7 @@ func (e *ex) doE2E(t []string) core.Result {
 		return out
 	}
 	defer conn.Close()
-	conn.SetDeadline(time.Now().Add(30 * time.Second))
+	conn.SetDeadline(time.Now().Add(12 * time.Second))
 	if _, err := io.WriteString(conn, raw); err != nil {
 		return core.Result{SkipModel: true, Impl: "e2e", Fail: "write to proxy: " + err.Error(), Sig: "c14:e2e-io"}
 	}
@@ -199,11 +199,27 @@ func genE2E(r *core.Rand) []string {
 	e := genEnv(r)
 	clean := func(h http.Header) http.Header {
 		o := http.Header{}
-		for k, vs := range h {
+		ks := make([]string, 0, len(h))
+		for k := range h {
+			ks = append(ks, k)
+		}
+		sort.Strings(ks)
+		for _, k0 := range ks {
+			vs := h[k0]
+			// names as the wire parser on the other side will store them (the generator also writes
+			// other spellings into the map; on the wire they are the same field)
+			k := http.CanonicalHeaderKey(k0)
 			if k == "Content-Length" || k == "Transfer-Encoding" || k == "Trailer" || len(vs) == 0 {
 				continue
 			}
 			for _, v := range vs {
+				// what can travel in one header line: no CR/LF/VT/FF (the wire writer would replace them)
+				v = strings.Map(func(c rune) rune {
+					if c == '\r' || c == '\n' || c == '\v' || c == '\f' {
+						return ' '
+					}
+					return c
+				}, v)
 				o[k] = append(o[k], strings.Trim(v, " \t"))
 			}
 		}
@@ -215,10 +231,22 @@ func genE2E(r *core.Rand) []string {
 		keys = append(keys, k)
 	}
 	sort.Strings(keys)
+	// on the wire: field names in any letter case (the parser canonicalises them), values optionally
+	// folded over two lines (obs-fold: the parser joins the pieces with one space), optional white
+	// space around the value
 	var b strings.Builder
 	for _, k := range keys {
 		for _, v := range h[k] {
-			b.WriteString(k + ": " + v + "\r\n")
+			wk := k
+			if r.Chance(1, 3) {
+				wk = mangleCase(r, k)
+				core.Count("e2e:wire-name-case")
+			}
+			if i := strings.IndexAny(v, " "); i > 0 && i < len(v)-1 && r.Chance(1, 4) && strings.TrimLeft(v[i:], " \t") != "" {
+				v = v[:i] + r.Pick("\r\n ", "\r\n\t", "\r\n  ") + strings.TrimLeft(v[i:], " \t")
+				core.Count("e2e:obs-fold")
+			}
+			b.WriteString(wk + ":" + r.Pick(" ", " ", "", "\t", "  ") + v + r.Pick("", "", " ", "\t") + "\r\n")
 		}
 	}
 	rh := clean(genHeader(r, genOpts{name: e.name, boundary: e.boundary}))
